@@ -103,6 +103,10 @@ def gen_feature(rng, kind, n):
         if rng.random() < 0.08 and k >= 3:
             cats = [1, "1", 2.0, "2", "x"][:k]      # a number next to its own string form
         w = [rng.choice([1, 1, 3, 8, 20]) for _ in cats]
+        if rng.random() < 0.08 and all(isinstance(c, str) for c in cats):
+            # the empty string as a category (a falsy value), rare on its own
+            j = rng.randrange(len(cats)); cats = list(cats); cats[j] = ""; w[j] = 1
+            w = [x if i == j else max(x, 8) for i, x in enumerate(w)]
         vals = rng.choices(cats, w, k=n)
         extra = None
     vals = [None if rng.random() < nan_rate else v for v in vals]
